@@ -76,6 +76,10 @@ def run(ctx):
                 names = [p[0] for p in sp.params]
                 focus_name = names[sp.focus]
                 pats = trace_patterns(rnd, names, focus_name)
+                if not thorough:
+                    # all + none already put every position in both the traced and the untraced cell under
+                    # every strategy; one of the three subset patterns rotates in for cross-position interaction
+                    pats = pats[:2] + [pats[2 + fn_index % 3]]
                 if thorough:
                     pats += [("random", {n for n in names if rnd.random() < 0.5}) for _ in range(3)]
                 for sname in ("REPLICATE", "IGNORE", "OMIT"):
@@ -238,7 +242,7 @@ def run(ctx):
                 "{none, None, other} x annotation form in {unannotated, class, generic, Optional, string, NewType, "
                 "None, Union/Any} x traced? x strategy) is the focus of a function in every situation (module "
                 "function, static/instance/class method, property, cached_property; focus first or not), with random "
-                "valid neighbours; each function x 3 strategies x 5 trace subsets (all/none/focus/all-but-focus/random) "
+                "valid neighbours; each function x 3 strategies x trace subsets (all, none, and focus / all-but-focus / random: one of them rotating in the quick tier, all in thorough) "
                 "x rotating return mode in {return, return None, yield, yield+return, yield+None, yield+mixed, "
                 "nothing}; through real shrink_traced_types + get_updated_definition + build_module_stubs + render "
                 "(stub parsed back with ast), plus the real `monkeytype stub` command line (in-process and as a "
